@@ -36,6 +36,7 @@ struct Run {
     get_muts: u64,
     checkpoints_unmaterialised: u64,
     direct_freezes: u64,
+    iter_writes: u64,
     reads: u64,
 }
 
@@ -67,7 +68,7 @@ fn check_ancestors(run: &mut Run, what: &str) -> Result<(), String> {
 
 fn step(run: &mut Run, r: &mut Rng, miri: bool) -> Result<(), String> {
     let k = near_key(r, &run.keys);
-    match r.below(32) {
+    match r.below(33) {
         0..=7 => {
             let v = gen_val(r);
             run.hist.push(format!("insert {} <- {} bytes", vmon_core::hex(&k), v.len()));
@@ -208,6 +209,72 @@ fn step(run: &mut Run, r: &mut Rng, miri: bool) -> Result<(), String> {
                 return Err(fail(run, format!("delete_prefix reports {} but the model had {} keys under the prefix", d, victims.len())));
             }
         }
+        #[cfg(concordium_base_verif)]
+        29 => {
+            // iterate over a prefix and write through the entries the iterator hands out
+            let inner = run.state.get_inner(&mut run.loader);
+            let mut t = inner.lock();
+            let it = t.verif_iter(&mut run.loader, &k);
+            let mut it = match it {
+                Ok(Some(it)) => it,
+                Ok(None) => {
+                    drop(t);
+                    if run.model.keys().any(|x| x.starts_with(&k)) {
+                        return Err(fail(run, format!("iterator over {} does not exist although the model has keys there", vmon_core::hex(&k))));
+                    }
+                    return Ok(());
+                }
+                Err(_) => {
+                    drop(t);
+                    return Err(fail(run, "too many iterators".into()));
+                }
+            };
+            let steps = 1 + r.below(6);
+            let mut writes: Vec<(Vec<u8>, Vec<u8>)> = vec![];
+            let mut err = None;
+            for _ in 0..steps {
+                let e = match t.verif_next(&mut run.loader, &mut it) {
+                    None => break,
+                    Some(e) => e,
+                };
+                let key = it.key().to_vec();
+                if r.chance(2, 3) {
+                    let v = gen_val(r);
+                    let ok = if r.chance(1, 2) {
+                        t.set(e, v.clone()).is_some()
+                    } else {
+                        match t.verif_get_mut(e, &mut run.loader) {
+                            Some(slot) => {
+                                *slot = v.clone();
+                                true
+                            }
+                            None => false,
+                        }
+                    };
+                    if !ok {
+                        err = Some(format!("writing through the entry the iterator yielded for {} failed", vmon_core::hex(&key)));
+                        break;
+                    }
+                    writes.push((key, v));
+                }
+            }
+            let deleted = t.verif_delete_iter(&it);
+            drop(t);
+            if let Some(e) = err {
+                return Err(fail(run, e));
+            }
+            if !deleted {
+                return Err(fail(run, "deleting the iterator reported that it did not exist".into()));
+            }
+            run.hist.push(format!("iterate {} and write through {} yielded entries", vmon_core::hex(&k), writes.len()));
+            for (key, v) in writes {
+                if !run.model.contains_key(&key) {
+                    return Err(fail(run, format!("iterator yielded key {} which the model does not have", vmon_core::hex(&key))));
+                }
+                run.model.insert(key, v);
+                run.iter_writes += 1;
+            }
+        }
         22 | 23 | 24 => {
             if run.stack.len() < 4 {
                 // take a checkpoint, in both calling orders the API allows
@@ -314,6 +381,7 @@ pub fn run(ctx: &ChildCtx, sh: &mut Shard) {
             get_muts: 0,
             checkpoints_unmaterialised: 0,
             direct_freezes: 0,
+            iter_writes: 0,
             reads: 0,
         };
         let res = vmon_core::catch(|| {
@@ -346,6 +414,7 @@ pub fn run(ctx: &ChildCtx, sh: &mut Shard) {
         sh.add("ops.get_mut", run.get_muts);
         sh.add("ops.checkpoint_unmaterialised", run.checkpoints_unmaterialised);
         sh.add("ops.freeze_directly_after_rollback", run.direct_freezes);
+        sh.add("ops.write_through_iterator", run.iter_writes);
         sh.max("max.model_size", run.model.len() as u64);
         let hist_text = run.hist.log.join("; ");
         let h = vmon_core::fnv(hist_text.as_bytes());
